@@ -124,6 +124,9 @@ func init() {
 				}
 				p.Scn.BlockEverySec, p.Scn.LBlockEverySec = 5, 5
 				p.Scn.LNLatencyMs = 200
+				if rapid.IntRange(0, 9).Draw(t, "fhadapter") < 7 {
+					p.Scn.Adapter[taker] = p.Scn.Flavor[taker] // the taker's real Lightning adapter answers "what became of my attempts"
+				}
 				second := world.LNFault{Idx: claim + 1, Kind: pick(t, "fhkind", []string{"delay", "delay", "hold"}), DelayMs: pick(t, "fhdelay", []int{60000, 150000, 240000})}
 				p.LN = []world.LNFault{{Idx: claim, Kind: "fail", DelayMs: pick(t, "fhfail", []int{0, 2000})}, second}
 				p.Crashes, p.Net, p.Silence, p.Adv, p.Faults, p.Chain = nil, nil, nil, nil, nil, nil
